@@ -187,7 +187,7 @@ fn m_len(p: &Program) -> usize {
 pub fn run(ctx: &mut Ctx) {
     ctx.rule("history = base x 0..R rounds of {new_append; 0..3 new entries of any kind/method incl. extra data, aligned, ZipCrypto; optional comment change; finish or drop}. Bases: archives from this writer (C01 programs) and from the independent builder (data descriptors, forced ZIP64 fields and end records, junk prefix, CP437 names, DOS attributes, file comments, unsupported methods, shuffled central order, gaps). After every round the crate reader and the independent (lenient) parser must see model = previous entries (name, content, method, timestamp, unix mode) followed by the new ones, and the archive comment unless replaced. Non-trivial = foreign base, or >=2 rounds with at least one non-empty round.");
     ctx.assume("file comments and extra fields of existing entries are not part of the claim (the property lists order, names, contents, methods, timestamps, modes, archive comment)");
-    let n = ctx.q(800, 15000);
+    let n = ctx.q(6000, 60000);
     let rmax = ctx.q(4usize, 8);
     ctx.explore::<History>(
         "histories",
